@@ -13,6 +13,11 @@ import CueVerif.Proofs.DisjValues
 import CueVerif.Proofs.DisjDefault
 import CueVerif.Proofs.DisjDupFail
 import CueVerif.Proofs.DisjWitness
+import CueVerif.Proofs.DisjOrder
+import CueVerif.Proofs.DisjNested
+import CueVerif.Proofs.DisjNested1
+import CueVerif.Proofs.DisjNested2
+import CueVerif.Proofs.DisjFinal
 namespace CueVerif.C04
 open CueVerif CueVerif.Disj
 
@@ -87,6 +92,130 @@ example : (Expr.and (.or Witness.A (Witness.a 2)) Witness.C).Flat = true ∧
     (specPair Witness.flat4 (.and (.or Witness.A (Witness.a 2)) Witness.C)).resolve = .ambiguous := by decide
 example : (Expr.and Witness.A (.or (Witness.a 1) (Witness.a 3))).Flat = true ∧
     (eval Witness.flat4 (.and Witness.A (.or (Witness.a 1) (Witness.a 3)))).resolve = .value 1 := by decide
+
+/-! ### beyond the flat fragment: arbitrary nesting of unmarked disjunctions -/
+
+/-- For EVERY expression tree without marks — any nesting depth of `|` under `&` under `|` …,
+any widths, duplicates, failing disjuncts; i.e. every path through the nested-disjunction
+(unroll) arm of `crossProduct`, the single-survivor collapse of `doDisjunct` and the
+`hasNonMaybe` demotion — the transcribed algorithm resolves exactly as the spec's pair
+(rules U0, D0: no default; the unique disjunct, else ambiguous). -/
+theorem C04_default_unmarked (S : Sl V) (h : Laws S) (e : Expr V) (hm : e.hasAnyMark = false) :
+    (eval S e).resolve = (specPair S e).resolve :=
+  default_unmarked S h e hm
+
+/-- … and it never reports a default there (`NumDefaults = 0`): all modes stay
+`maybeDefault`, the `hasNonMaybe` demotion never fires. -/
+theorem C04_no_default_unmarked (S : Sl V) (e : Expr V) (hm : e.hasAnyMark = false) :
+    (eval S e).defaults = [] :=
+  defaults_unmarked S e hm
+
+-- non-vacuity: `(1 | (2 | 3) & (3 | 2)) & ((2 | 3) | 1)`, nested two levels, not flat
+example : (Expr.and (.or (Witness.a 1) (.and (.paren Witness.C) (.paren (.or (Witness.a 3) (Witness.a 2)))))
+      (.or (.paren Witness.C) (Witness.a 1))).hasAnyMark = false ∧
+    (Expr.and (.or (Witness.a 1) (.and (.paren Witness.C) (.paren (.or (Witness.a 3) (Witness.a 2)))))
+      (.or (.paren Witness.C) (Witness.a 1))).Flat = false ∧
+    (eval Witness.flat4 (Expr.and (.or (Witness.a 1) (.and (.paren Witness.C) (.paren (.or (Witness.a 3) (Witness.a 2)))))
+      (.or (.paren Witness.C) (Witness.a 1)))).values = [1, 2, 3] := by decide
+
+/-- UNMARKED DISJUNCTIONS NESTED UNDER A MARKED ONE: for a disjunction `t1 | … | tn` (any
+width, any subset of the terms `*`-marked) whose terms are, below their own mark, mark-free
+expressions of ARBITRARY nesting (`Expr.NestedChain`, e.g. `*(1 | 2) | 3 | (2 | (4 | 5) & (5 | 4))`),
+the transcribed algorithm computes the spec's pair (D0–D2, M0–M3: the default set is the union
+of the values of the marked terms) and resolves as the spec.  Both arms of `crossProduct`'s
+second loop are covered: the leaf arm (`combineDefault2(…, leftDrops, rightDrops)`) and the
+unroll arm with its `false` of Issue #1304 — they agree here because `rightDropsDefault` is
+false whenever a marked term survives. -/
+theorem C04_default_nested (S : Sl V) (h : Laws S) (e : Expr V) (hf : e.NestedChain = true) :
+    (eval S e).resolve = (specPair S e).resolve :=
+  default_nestedChain S h e hf
+
+-- non-vacuity: `*(1 | 2) | 3 | (2 | 3) & (3 | 2)` is in the fragment, not flat, and keeps both
+-- values of its marked nested term as defaults (ambiguous, as the spec's ⟨1|2|3, 1|2⟩)
+example : (Expr.or (.or (.mark (.paren (.or (Witness.a 1) (Witness.a 2)))) (Witness.a 3))
+      (.and (.paren Witness.C) (.paren (.or (Witness.a 3) (Witness.a 2))))).NestedChain = true ∧
+    (eval Witness.flat4 (Expr.or (.or (.mark (.paren (.or (Witness.a 1) (Witness.a 2)))) (Witness.a 3))
+      (.and (.paren Witness.C) (.paren (.or (Witness.a 3) (Witness.a 2)))))).defaults = [1, 2] ∧
+    (specPair Witness.flat4 (Expr.or (.or (.mark (.paren (.or (Witness.a 1) (Witness.a 2)))) (Witness.a 3))
+      (.and (.paren Witness.C) (.paren (.or (Witness.a 3) (Witness.a 2)))))) = { v := [1, 2, 3], d := [1, 2] } := by
+  decide
+
+/-- … and unified with any number of atoms, in any order / bracketing / parenthesisation
+(`Expr.NestedSingle`: `int & (*(1 | 2) | "a" | (3 | (4 | 5)))`): rules U0/U1 including the
+clause "if all the marked disjuncts of a marked disjunction are eliminated, the remaining
+unmarked disjuncts are considered as if they originated from an unmarked disjunction". -/
+theorem C04_default_nested_scalars (S : Sl V) (h : Laws S) (e : Expr V)
+    (hf : e.NestedSingle = true) : (eval S e).resolve = (specPair S e).resolve :=
+  default_nestedSingle S h e hf
+
+-- non-vacuity: `2 & (*(1 | 3) | (2 | 3))`: the marked nested term is eliminated by the atom,
+-- the unmarked nested one survives with one value: resolves to 2 without a default
+example : (Expr.and (Witness.a 2) (.or (.mark (.paren (.or (Witness.a 1) (Witness.a 3)))) (.paren Witness.C))).NestedSingle = true ∧
+    (eval Witness.flat4 (Expr.and (Witness.a 2) (.or (.mark (.paren (.or (Witness.a 1) (Witness.a 3)))) (.paren Witness.C)))).resolve = .value 2 := by
+  decide
+
+/-! ### order independence of `d1 & d2 & … & dn` (also serves C01)
+
+`Expr.Reorder e e'` (Spec/DisjOrder.lean): `e'` unifies the same conjuncts as `e`, permuted,
+re-associated, re-parenthesised.  `C04_reorder_of_perm`: every permutation of the conjunct
+list is one. -/
+
+/-- every permutation `l'` of the conjunct list `l` gives a `Reorder` of `d1 & (d2 & …)` -/
+theorem C04_reorder_of_perm (top : V) {l l' : List (Expr V)} (hp : l.Perm l') :
+    Expr.Reorder (andList top l) (andList top l') :=
+  reorder_of_perm top hp
+
+/-- The VALUE SET of the transcribed algorithm is invariant under permutation and
+re-association of the conjuncts — for every expression tree (marks, nesting included). -/
+theorem C04_values_order (S : Sl V) (h : Laws S) {e e' : Expr V} (hr : Expr.Reorder e e') (x : V) :
+    x ∈ (eval S e).values ↔ x ∈ (eval S e').values :=
+  values_reorder S h hr x
+
+/-- The DEFAULT SET of the transcribed algorithm (the disjuncts `Default()` returns) is
+invariant under permutation and re-association of the conjuncts on the fragment `Flat`
+(any number of atoms and flat disjunctions, at most one marked).  The restriction is sharp:
+with two marked disjunctions `C04_order_dependent` exhibits a dependence. -/
+theorem C04_defaults_order (S : Sl V) (h : Laws S) {e e' : Expr V} (hr : Expr.Reorder e e')
+    (hf : e.Flat = true) (x : V) :
+    x ∈ (eval S e).defaultSet ↔ x ∈ (eval S e').defaultSet :=
+  defaultSet_reorder S h hr hf x
+
+/-- … and so is what a use that needs a concrete value sees. -/
+theorem C04_resolve_order (S : Sl V) (h : Laws S) {e e' : Expr V} (hr : Expr.Reorder e e')
+    (hf : e.Flat = true) : (eval S e).resolve = (eval S e').resolve :=
+  resolve_reorder S h hr hf
+
+-- non-vacuity: `A & (2 & C)` and `(C & A) & 2` (A = *1|2|3, C = 2|3) are related, in the
+-- fragment, and have the non-trivial default set {2}
+example : Expr.Reorder (Expr.and Witness.A (.and (Witness.a 2) Witness.C))
+    (.and (.and Witness.C Witness.A) (Witness.a 2)) :=
+  .trans (.cong (.refl _) (.comm _ _)) (.trans (.symm (.assoc _ _ _)) (.cong (.comm _ _) (.refl _)))
+example : (Expr.and Witness.A (.and (Witness.a 2) Witness.C)).Flat = true ∧
+    (eval Witness.flat4 (.and Witness.A (.and (Witness.a 2) Witness.C))).defaultSet = [2] := by decide
+
+/-! ### `finalizeDisjunctions`: the emitted `Disjunction` (Model/DisjFinal.lean transcribes the
+swap loop; the harness op `order` compares `Values` element by element, in order) -/
+
+/-- `Disjunction.Values[:NumDefaults]` are exactly the isDefault disjuncts, in their order -/
+theorem C04_finalize_defaults (ds : List (Leaf V)) :
+    (finalizeDisjunctions ds).1.take (finalizeDisjunctions ds).2 =
+      (ds.filter (·.dm = .isDef)).map (·.v) :=
+  finalize_defaults ds
+
+/-- `NumDefaults` counts exactly the isDefault disjuncts -/
+theorem C04_finalize_numDefaults (ds : List (Leaf V)) :
+    (finalizeDisjunctions ds).2 = (ds.filter (·.dm = .isDef)).length :=
+  finalize_numDefaults ds
+
+/-- the swap loop loses and duplicates nothing: `Values` is a permutation of the disjuncts -/
+theorem C04_finalize_perm (ds : List (Leaf V)) :
+    (finalizeDisjunctions ds).1.Perm (ds.map (·.v)) :=
+  finalize_perm ds
+
+-- non-vacuity: `1 | 2 | *3 | 0`-like list [n, n, D, n]: the default comes first, the
+-- non-defaults are rotated (NOT a stable partition), NumDefaults = 1
+example : finalizeDisjunctions ([⟨1, .notDef, .notDef⟩, ⟨2, .notDef, .notDef⟩, ⟨3, .isDef, .isDef⟩,
+    ⟨0, .notDef, .notDef⟩] : List (Leaf (Fin 4))) = ([3, 2, 1, 0], 1) := by decide
 
 /-! ### duplicates and failed disjuncts -/
 
